@@ -133,6 +133,9 @@ mod sqr;
 mod third_party;
 mod ubig;
 
+#[cfg(dashu_verif)]
+pub mod verif_hooks;
+
 // All the public items from third_party will be exposed
 #[allow(unused_imports)]
 pub use third_party::*;
